@@ -181,7 +181,12 @@ func c04(c *Ctx) {
 		for _, b := range fc.Blocks {
 			for _, in := range b.Instrs {
 				if mu, ok := in.(*ssa.MapUpdate); ok && strings.HasSuffix(mu.Map.Type().String(), "v1.Credentials") {
-					rk, pk, _ := flow.AccessPath(mu.Key)
+					rk, pk, _ := flow.AccessPathC(mu.Key)
+					if sameElem(rk, pk, "Credentials[].Name") {
+						okCred = true
+						continue
+					}
+					rk, pk, _ = flow.AccessPath(mu.Key)
 					okCred = pk == "Name" && flow.Strict.Any(rk, func(v ssa.Value) bool {
 						r2, p2, _ := flow.AccessPathC(v)
 						return sameElem(r2, p2, "Credentials") || sameElem(r2, p2, "Credentials[]")
@@ -410,8 +415,8 @@ func c04(c *Ctx) {
 			for _, in := range b.Instrs {
 				if bo, ok := in.(*ssa.BinOp); ok && bo.Op == token.EQL {
 					t1 := hasSuffixCall(bo.X, "grpc.ClientConn).Target") || hasSuffixCall(bo.Y, "grpc.ClientConn).Target")
-					_, p1, _ := flow.AccessPath(bo.Y)
-					_, p2, _ := flow.AccessPath(bo.X)
+					_, p1, _ := flow.AccessPathC(bo.Y)
+					_, p2, _ := flow.AccessPathC(bo.X)
 					if t1 && (strings.HasSuffix(p1, "Status.Endpoint") || strings.HasSuffix(p2, "Status.Endpoint")) {
 						t, _ := cfgx.CondEdges(bo)
 						eqTrue = append(eqTrue, t...)
@@ -463,7 +468,7 @@ func c04(c *Ctx) {
 		}
 		c.R.Check(okActive, load.FuncName(gc)+": active revision", c.pos(gc.Pos()), "the revision used is chosen by GetDesiredState()==Active", "the revision whose endpoint is dialled is not selected by DesiredState==Active")
 		if len(newc) == 1 {
-			_, p, _ := flow.AccessPath(cfgx.CallArgs(newc[0])[0])
+			_, p, _ := flow.AccessPathC(cfgx.CallArgs(newc[0])[0])
 			c.R.Check(strings.HasSuffix(p, "Status.Endpoint"), site(newc[0])+" dials active endpoint", c.pos(newc[0].Pos()), "dials active.Status.Endpoint", "the new connection does not dial the active revision's endpoint")
 			// the store conns[name] = conn after ok(NewClient); stale one closed+deleted before on the ok&&!eq path
 			for _, b := range gc.Blocks {
